@@ -140,8 +140,9 @@ func vResidue(nd *vNode, pme any, pid peer.ID, topics []string) []string {
 		}
 		if gs.gate != nil {
 			gs.gate.Lock()
-			if _, ok := gs.gate.peerStats[pid]; ok {
+			if st, ok := gs.gate.peerStats[pid]; ok {
 				add("gater.peerStats")
+				c13GaterNote = fmt.Sprintf("gater entry: connected=%d expire=%v (now %v)", st.connected, st.expire.Format("15:04:05.000"), time.Now().Format("15:04:05.000"))
 			}
 			gs.gate.Unlock()
 		}
@@ -209,6 +210,8 @@ func vResidue(nd *vNode, pme any, pid peer.ID, topics []string) []string {
 	sort.Strings(out)
 	return out
 }
+
+var c13GaterNote string
 
 var c13RPCKinds = []string{"none", "sub", "graft", "prune", "ihave", "iwant", "idontwant", "extensions", "partial", "publish_ok", "publish_rejected", "publish_slow", "publish_dup"}
 var c13Endings = []string{"conn_close", "out_then_in_close", "out_then_in_reset", "in_then_out_close", "in_then_out_reset", "blacklist", "out_only_reset_then_conn", "in_only_reset_then_conn"}
@@ -474,7 +477,7 @@ func TestVerifC13Leaks(t *testing.T) {
 					m = m[:i]
 				}
 				c.Violatef(map[string]string{"kind": "peer_state_leak", "map": m, "proto_class": c13ProtoClass(life.proto), "ending": life.ending},
-					"victim still present in %s 13 minutes after it disconnected; lifecycle: %s", where, life)
+					"victim still present in %s 13 minutes after it disconnected; lifecycle: %s %s", where, life, c13GaterNote)
 			}
 			// the bystanders must still be there (the oracle is not trivially satisfied by forgetting everybody)
 			if len(vResidue(nd, anyOrNil(pme), B1.ID(), []string{"t"})) == 0 {
